@@ -1,5 +1,8 @@
 """C02 unit-level drivers: the REAL ParseSections / ParseLines passes on abstract token lists.
-stdin JSON lines {"id","k":"S","items":[[1,level,c]|[0,x],...]} | {"id","k":"L","lines":[[prefix, w] | [prefix, w, word after a colon],...]}"""
+stdin JSON lines {"id","k":"S","items":[[1,level,c]|[0,x],...]} | {"id","k":"L","lines":[[prefix, w] | [prefix, w, word after a colon],...]}
+| {"id","k":"C","toks":[kind,...]}: the REAL TableParser.find_caption on the children of a table given as token kinds
+(text blank nl break bar open close ref row quote colon cap); out = the children afterwards, tokens named by their index in `toks`,
+a caption node as ["cap", [indices of its children]]"""
 import json
 import logging
 import sys
@@ -11,6 +14,35 @@ from mwlib.parser import expander  # noqa: E402,F401
 from mwlib.parser.refine import core  # noqa: E402
 
 T = core.Token
+from mwlib.parser.refine import parse_table  # noqa: E402
+
+
+def mk_tok(kind, uid):
+    if kind == "text":
+        return T(type=T.t_text, text="w%d" % uid, uid=uid)
+    if kind == "blank":
+        return T(type=T.t_text, text=" ", uid=uid)
+    if kind == "nl":
+        return T(type=T.t_newline, text="\n", uid=uid)
+    if kind == "break":
+        return T(type=T.t_break, text="\n\n", uid=uid)
+    if kind == "bar":
+        return T(type=T.t_special, text="|", uid=uid)
+    if kind == "colon":
+        return T(type=T.t_special, text=":", uid=uid)
+    if kind == "open":
+        return T(type=T.t_2box_open, text="[[", uid=uid)
+    if kind == "close":
+        return T(type=T.t_2box_close, text="]]", uid=uid)
+    if kind == "quote":
+        return T(type=T.t_singlequote, text="''", uid=uid)
+    if kind == "ref":
+        return T(type=T.t_complex_tag, tagname="ref", children=[], uid=uid)
+    if kind == "row":
+        return T(type=T.t_complex_table_row, tagname="tr", children=[], uid=uid)
+    if kind == "cap":
+        return T(type=T.t_tablecaption, text="|+", uid=uid)
+    raise ValueError(kind)
 
 
 def sec_sx(tok):
@@ -52,6 +84,14 @@ for line in sys.stdin:
                     toks.append(T(type=T.t_text, text="b%d" % it[1]))
             core.ParseSections(toks, None)
             r["out"] = " ".join(sec_sx(t) for t in toks)
+        elif c["k"] == "C":
+            kids = [mk_tok(kd, j) for j, kd in enumerate(c["toks"])]
+            table = T(type=T.t_complex_table, tagname="table", children=kids)
+            tp = object.__new__(parse_table.TableParser)
+            tp.xopts = None
+            tp.tokens = [table]
+            tp.find_caption(table)
+            r["out"] = [["cap", [k.uid for k in t.children]] if t.type == T.t_complex_caption else t.uid for t in table.children]
         else:
             toks = []
             for ln in c["lines"]:
